@@ -554,6 +554,7 @@ pub fn buildx_line(input: &[u8], o: Opts) -> String {
     build_line(input, o).replacen("build ", "buildx ", 1)
 }
 fn gen_c10(out: &mut Out, rng: &mut Rng, thorough: bool) {
+    crate::unitops::gen_aligned(out, rng, thorough, false);
     let caps = caps();
     let stride = if thorough { 1 } else { 37 };
     let mut lens: Vec<usize> = (0..=8000).step_by(stride).collect();
@@ -797,9 +798,56 @@ pub fn select_line(input: &[u8], e: usize, md: usize, v: usize, forced: Option<u
     s
 }
 
+/// the selection on a REUSED builder: build once at level e0, change the level, build again (recorded)
+pub fn selecth_line(input: &[u8], e0: usize, e: usize, md: usize, v: usize) -> String {
+    let inp = input.to_vec();
+    let r = std::panic::catch_unwind(move || {
+        let mut b = fast_qr::QRBuilder::new(inp);
+        b.ecl(ecl_of(e0));
+        b.mode(mode_of(md));
+        b.version(version_of(v));
+        let _ = b.build();
+        b.ecl(ecl_of(e));
+        h::recorder_start();
+        let q = b.build();
+        (q, h::recorder_take())
+    });
+    let mut s = format!("selecth {} {} {} {} {} => ", hex(input), e0, e, md, v);
+    match r {
+        Ok((Ok(q), cands)) => {
+            s.push_str(&format!("ok {} {} {}", opt(q.mask.map(mask_ix)), q.size, cands.len()));
+            for c in &cands {
+                let m: String = c.modules.iter().map(|b| std::char::from_digit(u32::from(*b), 16).unwrap_or('X')).collect();
+                s.push_str(&format!(" {} {} {}", c.mask as usize, c.score, m));
+            }
+            s.push_str(&format!(" {}", matrix_hex(&q)));
+        }
+        Ok((Err(fast_qr::qr::QRCodeError::EncodedData), _)) => s.push_str("err E"),
+        Ok((Err(fast_qr::qr::QRCodeError::SpecifiedVersion), _)) => s.push_str("err S"),
+        Err(_) => s.push_str("trap"),
+    }
+    s
+}
+
+fn gen_selecth(out: &mut Out, rng: &mut Rng, thorough: bool) {
+    let caps = caps();
+    for k in 0..(if thorough { 120 } else { 16 }) {
+        let v = if k % 4 == 0 { rng.below(40) } else { rng.below(8) };
+        let md = rng.below(3);
+        let e0 = rng.below(4);
+        let e = (e0 + 1 + rng.below(3)) % 4;
+        let cap = caps[md][e0.max(e).max(3)][v].min(caps[md][3][v]);
+        let len = rng.range(0, cap);
+        let inp = content(rng, md, len);
+        out.job(move || selecth_line(&inp, e0, e, md, v));
+    }
+}
+
 fn gen_c11(out: &mut Out, rng: &mut Rng, thorough: bool) {
     crate::unitops::gen_lines(out, rng, thorough);
     crate::unitops::gen_squares(out, rng, thorough);
+    crate::unitops::gen_aligned(out, rng, thorough, true);
+    gen_selecth(out, rng, thorough);
     let caps = caps();
     let cells: Vec<(usize, usize)> = if thorough {
         (0..40).flat_map(|v| (0..4).map(move |e| (v, e))).collect()
